@@ -389,16 +389,23 @@ def run(analysis: Analysis, tier: str) -> RuleResult:
             txt = unparse(info.node)
             ok = "except asyncio.CancelledError" in txt and any(isinstance(h, ast.ExceptHandler) and h.type is not None and "CancelledError" in unparse(h.type) and any(isinstance(x, ast.Raise) for x in ast.walk(h)) for h in ast.walk(info.node))
             res.add("C20-R2", f"{q} / cancellation (stop) ends the loop", ok, common.where(analysis, info, info.node), "CancelledError is re-raised")
-    # R3 stop order
-    for qual in ("task:SyncTasks.stop", "task:AsyncTasks.stop"):
+    # R3 stop order, on the paths of both stop() variants
+    from .c14 import stop_root
+
+    last = analysis.versions[-1]
+    for summ in common.pmap(analysis, stop_root, [(last, "serial", "sync"), (last, "serial", "async")]):
+        qual = summ["qual"]
+        rows = [r for r in summ["rows"] if r["kind"] == "val"]
+        bad = None
+        for r in rows:
+            others = r["stops"] + r["task_cancels"] + r["saves"] + r["cancels"]
+            if not r["disconnects"] or (others and min(others) < min(r["disconnects"])):
+                bad = r
         info = analysis.p.func(qual)
-        body = [s for s in info.node.body if not (isinstance(s, ast.Expr) and isinstance(s.value, ast.Constant))]
-        idx_disc = next((i for i, s in enumerate(body) if "transport.disconnect()" in unparse(s)), None)
-        idx_other = [i for i, s in enumerate(body) if any(k in unparse(s) for k in ("_stop_event.set()", "save_sensors", "connect_task"))]
-        ok = idx_disc is not None and all(idx_disc < i for i in idx_other) and bool(idx_other)
-        res.add("C20-R3", f"{qual} / disconnects first", ok, common.where(analysis, info, info.node), "transport.disconnect() precedes stopping the pump, cancelling the connect task and the final save")
-    info = analysis.p.func("task:AsyncTasks.stop")
-    res.add("C20-R3", "task:AsyncTasks.stop / cancels a pending connect task", "connect_task.cancel()" in unparse(info.node), common.where(analysis, info, info.node), "no reconnect attempts after stop()")
+        res.add("C20-R3", f"{qual} / disconnects first", bool(rows) and bad is None, common.where(analysis, info, info.node), "transport.disconnect() precedes stopping the pump, cancelling the connect task and the final save" if bad is None else "something (stop event, connect-task cancellation, save) happens before the transport is disconnected", bad["witness"] if bad else None)
+        if "Async" in qual:
+            with_task = [r for r in rows if r["task_cancels"]]
+            res.add("C20-R3", f"{qual} / cancels a pending connect task", bool(with_task), common.where(analysis, info, info.node), "connect_task.cancel() on the path with a live connect task: no reconnect attempts after stop()")
     info = analysis.p.func("transport:Transport.send")
     first = [s for s in info.node.body if isinstance(s, ast.If)]
     ok = bool(first) and "protocol" in unparse(first[0].test) and all(isinstance(x, ast.Return) for x in first[0].body)
